@@ -203,6 +203,36 @@ func c03Program(w *W, r *rand.Rand, stratum string, tree *Node, bs []Binding, co
 					}
 				}
 			}
+			// A variable that counts as cached but fails when it is read: TryEval performs the same effects as Eval up to and
+			// including the failing read, and fails like Eval
+			if !allBoundNames(v.DumpTree, b) {
+				rec4 := &Recorder{}
+				f4 := fetcherFor(b, rec4)
+				f4.FailCached = true
+				o4, _ := callExpr(v.E, CallTryEval, f4, nil, false)
+				w.Evals++
+				w.Inc("tryeval_traces_with_failing_cached_reads")
+				if o4.Panic != nil {
+					w.Fail("tryeval-panic/"+normPanic(o4.Panic)+"@"+panicSite(o4.Stack), "TryEval panicked: %v\n%s", o4.Panic, describeCase(v.Src, v.Cfg, b))
+				} else if !matchEffects(env.Trace, rec4.Effects) || !outcomeEq(o, o4) {
+					w.Fail("effects/tryeval-failing-cached-read/"+stratum, "every variable counts as cached, reading an unbound one fails: TryEval's fetches/operator calls or its outcome differ from Eval's\nexpected (?=optional): %s\nobserved:              %s\nEval: %s, TryEval: %s\n%s\ndump: %s",
+						effsText(env.Trace), effsText(rec4.Effects), o, o4, describeCase(v.Src, v.Cfg, b), oneLine(v.Dump))
+				}
+			}
+			// TryEvalBool is TryEval plus a check of the result type: one evaluation's effects, whatever the result type
+			if allBoundNames(v.DumpTree, b) && w.Evals%3 == 0 {
+				rec5 := &Recorder{}
+				guard(func() (eval.Value, error) {
+					bv, err := v.E.TryEvalBool(&eval.Ctx{VariableFetcher: fetcherFor(b, rec5)})
+					return bv, err
+				})
+				w.Evals++
+				w.Inc("tryevalbool_traces_compared")
+				if !matchEffects(env.Trace, rec5.Effects) {
+					w.Fail("effects/tryevalbool/"+stratum, "TryEvalBool with every variable available performs other fetches/operator calls than one left-to-right evaluation of the dumped tree\nexpected (?=optional): %s\nobserved:              %s\n%s\ndump: %s",
+						effsText(env.Trace), effsText(rec5.Effects), describeCase(v.Src, v.Cfg, b), oneLine(v.Dump))
+				}
+			}
 			// TryEval with every variable available evaluates the same program: the same effects are expected
 			// (only on fully bound bindings: TryEval treats an unbound variable as unavailable)
 			if allBoundNames(v.DumpTree, b) {
